@@ -288,6 +288,7 @@ def run(chk):
     chk.rule("C10.R6", "factories: slice_solution None = all declared outputs, integer k (0 and negative k included) = component k alone, slice kept; the "
                        "other specifications reach the wrapper unchanged", floor=6)
     factory_slice_rule(chk, "C10.R6", w)
+    factory_transform_rule(chk, "C10.R6", w)
 
 
 def factory_slice_rule(chk, rule_id, w=None):
@@ -301,14 +302,14 @@ def factory_slice_rule(chk, rule_id, w=None):
     eqx_list = ((layer, 2, 8), (act,), (layer, 8, 3))
     # what is compared is the list of output components the stored slice selects (not how the slice is written)
     cases = [(None, [0, 1, 2]), (0, [0]), (1, [1]), (2, [2]), (-1, [2]), (-2, [1]), (slice(1, 3), [1, 2]), (slice(0, 1), [0])]
-    for modname, fname, extra in ((PINN_MOD, "create_PINN", {}),):
+    for modname, fname, extra in ((PINN_MOD, "create_PINN", ()), ("jinns.utils._hyperpinn", "create_HYPERPINN", (["nu"], 1))):
         for given, want in cases:
             def go(modname=modname, fname=fname, given=given, want=want, extra=extra):
                 create = w.get(modname, fname)
                 it = lambda i, p: i
                 ot = lambda i, o, p: o
-                net = create(Sym('key'), eqx_list, "nonstatio_PDE", 1, input_transform=it, output_transform=ot,
-                             slice_solution=given, **extra)
+                net = create(Sym('key'), eqx_list, "nonstatio_PDE", *extra, 1, input_transform=it, output_transform=ot,
+                             slice_solution=given)
                 got = net.fields['slice_solution']
                 if not isinstance(got, slice):
                     raise Violation(f"{fname}(slice_solution={given!r})", f"the wrapper's solution slice is {got!r}: indexing with it "
@@ -322,3 +323,42 @@ def factory_slice_rule(chk, rule_id, w=None):
                     raise Violation(f"{fname}", "equation type / transforms / output slice altered on the way to the wrapper", "unchanged")
                 return f"slice_solution={given!r} -> {want}"
             chk.run(rule_id, f"{modname}:{fname}", {"slice_solution": str(given)}, go, construct=f"{fname} solution slice")
+
+
+def factory_transform_rule(chk, rule_id, w=None):
+    """a transform handed to a factory is the wrapper's transform; an omitted one is the identity - for each of the two transforms
+    independently of the other, for both factories"""
+    w = w or make_world(chk.repo)
+    chk.files.update(w.files)
+    layer = lambda *a, **k: OpaqueObj(f"layer{a}")
+    act = lambda x: x
+    eqx_list = ((layer, 2, 8), (act,), (layer, 8, 3))
+    HYP_MOD = "jinns.utils._hyperpinn"
+    for modname, fname, pre in ((PINN_MOD, "create_PINN", ()), (HYP_MOD, "create_HYPERPINN", (["nu"], 1))):
+        for give_in in (False, True):
+            for give_out in (False, True):
+                cfg = {"input_transform": "given" if give_in else "omitted", "output_transform": "given" if give_out else "omitted"}
+
+                def go(modname=modname, fname=fname, pre=pre, give_in=give_in, give_out=give_out):
+                    create = w.get(modname, fname)
+                    it = lambda i, p: i
+                    ot = lambda i, o, p: o
+                    kw = {}
+                    if give_in:
+                        kw['input_transform'] = it
+                    if give_out:
+                        kw['output_transform'] = ot
+                    net = create(Sym('key'), eqx_list, "statio_PDE", *pre, 2, **kw)
+                    for name, given, mine, probe in (('input_transform', give_in, it, (Sym('x_in'), Sym('prm'))),
+                                                      ('output_transform', give_out, ot, (Sym('x_in'), Sym('y_out'), Sym('prm')))):
+                        got = net.fields[name]
+                        if given:
+                            if got is not mine:
+                                raise Violation(f"{fname}({name}=f)", f"the wrapper's {name} is not the function handed to the factory", "the caller's function")
+                        else:
+                            r = got(*probe)
+                            want = probe[0] if name == 'input_transform' else probe[1]
+                            if not same(r, want):
+                                raise Violation(f"{fname}({name} omitted)", f"default {name} returns {r}", f"the identity ({want})")
+                    return "given transforms kept, omitted ones are the identity"
+                chk.run(rule_id, f"{modname}:{fname}", cfg, go, construct=f"{fname} transforms")
